@@ -12,7 +12,7 @@ def faultAtt (t : Nat) (fault : String) : Nat → Att := fun _ =>
   | _ => ⟨1, false, 500⟩
 
 /-- `time <call> <T_ms> <D_ms> <fault[@k]>`: the model's prediction. The call is a single retry loop (`sl`, `cmd`,
-    `close`), a sequence of three exchanges (`hs`) or the outer retry over walks of nine steps (`sdr`, the reference
+    `close`), a sequence of three exchanges (`hs`; `hsd`: two discovery pages first, five steps) or the outer retry over walks of nine steps (`sdr`, the reference
     BMC's repository holds three records); with `fault@k` the first k datagrams are answered properly, i.e. the first k
     steps succeed at once. Under every fault no step that meets it ever receives a final response, so the call ends in
     an error, and (by `returns_by_deadline` / `sequence_returns_by_deadline` / `retrieval_returns_by_deadline`) not after
@@ -29,6 +29,7 @@ def evalTime1 (args : List String) : String :=
       let T := max 1 t
       let r := match call with
         | "hs" => runSeq T d (d + 2) ((List.range 3).map step) 0
+        | "hsd" => runSeq T d (d + 2) ((List.range 5).map step) 0
         | "sdr" => runOuter T d (d + 2) (fun w => (List.range 9).map (fun i => if w == 0 then step i else faultAtt t fault)) (fun _ => 500) (d + 2) 0 0
         | _ => run T d (step 0) (d + 2) 0 0
       match r with
